@@ -1205,6 +1205,11 @@ def url_fn(ctx: "Wtp", token: str) -> None:
     if ctx.pre_parse:
         return text_fn(ctx, token)
 
+    node = ctx.parser_stack[-1]
+    if node.kind == NodeKind.URL:
+        # Inside [url text] the URL is taken as written
+        return text_fn(ctx, token)
+
     # If the URL ends in certain common punctuation characters, put the
     # punctuation as text after it.
     suffix: Optional[str] = None
@@ -1212,9 +1217,6 @@ def url_fn(ctx: "Wtp", token: str) -> None:
         suffix = token[-1]
         token = token[:-1]
 
-    node = ctx.parser_stack[-1]
-    if node.kind == NodeKind.URL:
-        return text_fn(ctx, token)
     node = _parser_push(ctx, NodeKind.URL)
     text_fn(ctx, token)
     _parser_pop(ctx, False)
